@@ -2,6 +2,7 @@
 package main
 
 import (
+	"bytes"
 	"bufio"
 	"encoding/hex"
 	"encoding/json"
@@ -89,6 +90,7 @@ type Ctx struct {
 	Distinct int
 	Nontriv  int
 	scale    int
+	held     []heldResult
 }
 
 func i64(v int64) []byte {
@@ -192,7 +194,46 @@ func openCtx(prop, tier string, seed uint64, out string) *Ctx {
 		Dist: map[string]int{}, OracleN: map[string]int{}, seen: map[string]bool{}}
 }
 
+// a byte slice the library handed out earlier, with what it contained when the caller last looked
+type heldResult struct {
+	entry string
+	args  [][]byte
+	b     []byte
+	want  []byte
+}
+
+// Hold keeps a result the caller still owns; later calls into the library must not change it.
+// The most recent few are re-examined at every Hold, all of them at the end of the run.
+func (c *Ctx) Hold(entry string, args [][]byte, b []byte) {
+	n := len(c.held)
+	for i := n - 6; i < n; i++ {
+		if i >= 0 {
+			c.checkHeld(i)
+		}
+	}
+	if len(b) == 0 {
+		return
+	}
+	if len(c.held) >= 4096 {
+		c.held = append(c.held[:0], c.held[2048:]...)
+	}
+	c.held = append(c.held, heldResult{entry, args, b, append([]byte(nil), b...)})
+}
+
+func (c *Ctx) checkHeld(i int) {
+	h := &c.held[i]
+	ok := bytes.Equal(h.b, h.want)
+	c.Check("earlier_results_unchanged", ok, h.entry, h.args, "",
+		fmt.Sprintf("a result handed out earlier (%x when returned) reads %x after later calls into the library", h.want, h.b))
+	if !ok {
+		h.want = append([]byte(nil), h.b...)
+	}
+}
+
 func (c *Ctx) close(out string) {
+	for i := range c.held {
+		c.checkHeld(i)
+	}
 	c.cases.Flush()
 	c.impl.Flush()
 	keys := make([]string, 0, len(c.Dist))
